@@ -123,6 +123,9 @@ func (a *AggregationProcess) Start() {
 }
 
 func (a *AggregationProcess) Stop() {
+	// Start takes the signal once it has created the workers: they are all in the list then,
+	// also when Stop was called before Start got to run.
+	a.stopChan <- true
 	// A worker which is processing a message needs the mutex to finish, and it only takes
 	// the stop signal once it has finished: do not hold the mutex while waiting for it.
 	a.mutex.Lock()
@@ -131,7 +134,6 @@ func (a *AggregationProcess) Stop() {
 	for _, worker := range workers {
 		worker.stop()
 	}
-	a.stopChan <- true
 }
 
 // GetNumFlows returns total number of connections/flows stored in map
